@@ -305,56 +305,71 @@ def r09_10(ctx):
     r01_6(ctx)   # get_p_sys hands every per-interval helper the interval index k (never a default)
 
 
-@rule("R09.11", min_instances=6, desc="a value given for a concatenation of symbols is split among them by their own sizes, in order (for_all_primitives: used by set_value, set_initial, set_der, set_next)")
+@rule("R09.11", min_instances=6, desc="a value given for a concatenation of symbols is split among them by their own sizes, in order (for_all_primitives: used by set_value, set_initial, set_der, set_next) - decided on simulated calls with one symbol and with a concatenation of three symbols of sizes 2, 1, 3")
 def r09_11(ctx):
     """`ocp.set_value(vertcat(a, b), v)`: primitive i receives the entries [offset_i, offset_i + nnz_i) of the flattened
-    value with offset_i = sum of the sizes of its predecessors; a single symbol receives the value unchanged."""
+    value with offset_i = sum of the sizes of its predecessors; a single symbol receives the value unchanged; anything that is
+    neither a symbol nor a concatenation of symbols is rejected."""
+    from ..sim import Sim, fresh_obj
+    from ..layout import Sym, Obj, freeze, LayoutUnknown
     P = ctx.prog
     f = P.function("casadi_helpers", "for_all_primitives")
-    sc = ctx.scope(f)
-    expr, rhs, cb = f.params[0], f.params[1], f.params[2]
-    calls = [c for c in walk_no_nested(f.node) if isinstance(c, ast.Call) and isinstance(c.func, ast.Name) and c.func.id == cb]
-    single = [c for c in calls if not sc.enclosing_loops(c)]
-    ok = len(single) == 1 and [ast.unparse(a) for a in single[0].args] == [expr, rhs] and any(ast.unparse(t) == "%s.is_symbolic()" % expr and p for t, p in sc.path_guards(single[0]))
-    ctx.check(ok, "for_all_primitives hands a single symbol its value unchanged", detail="single-symbol shortcut", expected="if expr.is_symbolic(): callback(expr, rhs)", found="; ".join(ast.unparse(c) for c in single), fi=f)
-    looped = [c for c in calls if sc.enclosing_loops(c)]
-    ok = len(looped) == 1
-    ctx.check(ok, "for_all_primitives calls back once per primitive", detail="per-primitive callback", expected="for p in expr.primitives(): callback(p, <its slice>)", found=str(len(looped)), fi=f)
-    if not ok:
-        return
-    c = looped[0]
-    lp = sc.enclosing_loops(c)[-1]
-    n = Norm(sc)
-    pv = lp[0].id if isinstance(lp[0], ast.Name) else None
-    okl = pv is not None and n.key(lp[1]) == Norm(None).key(ast.parse("%s.primitives()" % expr, mode="eval").body)
-    ctx.check(okl, "for_all_primitives walks the primitives of the expression in order", detail="iteration", expected="for p in expr.primitives()", found=ast.unparse(lp[1]), fi=f)
-    if not okl:
-        return
-    # the slice handed to primitive p
-    sl = [x for x in ast.walk(c.args[1]) if isinstance(x, ast.Subscript) and isinstance(x.slice, ast.Slice)] if len(c.args) == 2 else []
-    ok = len(sl) == 1 and ast.unparse(c.args[0]) == pv and sl[0].slice.lower is not None and sl[0].slice.upper is not None and isinstance(sl[0].slice.lower, ast.Name)
-    ctx.check(ok, "primitive p receives a slice [offset : offset + size)", detail="slice form", expected="rhs[offset:offset+p.nnz()]", found=ast.unparse(c.args[1]) if len(c.args) == 2 else "", fi=f)
-    if not ok:
-        return
-    off = sl[0].slice.lower.id
-    width = Norm(None).poly(sl[0].slice.upper) - Norm(None).poly(sl[0].slice.lower)
-    ctx.check(width == expected("%s.nnz()" % pv), "the slice of primitive p has p.nnz() entries", detail="slice width", expected="%s.nnz()" % pv, found=str(width), fi=f, sample={"width": str(width)})
-    shaped = is_call_to(c.args[1], f.params[4]) or (isinstance(c.args[1], ast.Call) and len(c.args[1].args) == 2)
-    ctx.check(shaped and ast.unparse(c.args[1].args[0]) == "%s.sparsity()" % pv, "the slice is reshaped to p's own sparsity", detail="element layout of matrix-valued symbols", expected="rhs_type(p.sparsity(), slice)",
-              found=ast.unparse(c.args[1])[:80], fi=f)
-    inits = [d for d in sc.defs.get(off, []) if d.kind == "assign" and not sc.enclosing_loops(d.stmt)]
-    upd = [d for d in sc.defs.get(off, []) if d.kind in ("assign", "aug") and sc.enclosing_loops(d.stmt) and sc.enclosing_loops(d.stmt)[-1][2] is lp[2]]
-    loopdef = [d for d in sc.defs.get(off, []) if d.kind == "for"]
-    ok = len(inits) == 1 and ast.unparse(inits[0].value) == "0" and len(upd) == 1 and not loopdef and sc.order[upd[0].stmt] > sc.order[c]
+    sizes = [2, 1, 3]
+    prims = [fresh_obj("prim%d" % i, n=n_) for i, n_ in enumerate(sizes)]
+    labels = ["r%d" % i for i in range(sum(sizes))]
+    results = {}
+    for case in ("single", "concat", "invalid"):
+        got = []
+        expr = fresh_obj("expr", kind=case)
+
+        def h_callable(sim, target, args, kwargs, n, got=got):
+            if isinstance(target, Sym) and target.op == "param" and target.args[0] == f.params[2]:
+                got.append((args[0], args[1]))
+                return None
+            if isinstance(target, Sym) and target.op == "param" and len(f.params) > 4 and target.args[0] == f.params[4]:
+                return ("typed",) + tuple(args)
+            return NotImplemented
+        hooks = {"*callable": h_callable,
+                 ".is_symbolic": lambda s_, r, a, k, n, case=case: case == "single" if isinstance(r, Obj) and r.name == "expr" else NotImplemented,
+                 ".is_valid_input": lambda s_, r, a, k, n, case=case: case != "invalid" if isinstance(r, Obj) and r.name == "expr" else NotImplemented,
+                 ".is_scalar": lambda s_, r, a, k, n: False, ".primitives": lambda s_, r, a, k, n: list(prims) if isinstance(r, Obj) and r.name == "expr" else NotImplemented,
+                 ".nnz": lambda s_, r, a, k, n: r.attrs["n"] if isinstance(r, Obj) and "n" in r.attrs else NotImplemented,
+                 ".numel": lambda s_, r, a, k, n: r.attrs["n"] if isinstance(r, Obj) and "n" in r.attrs else NotImplemented,
+                 ".sparsity": lambda s_, r, a, k, n: Sym("sparsity", r.name if isinstance(r, Obj) else freeze(r)),
+                 "vec": lambda s_, r, a, k, n: Sym("vec", freeze(a[0]))}
+        sim = Sim(P, hooks=hooks)
+        sim.attr_hooks = {"nz": lambda o: list(labels) if isinstance(o, (Sym, tuple)) else NotImplemented}
+        try:
+            sim.call(f, [expr, Sym("value"), Sym("param", f.params[2]), "message"] + ([Sym("param", f.params[4])] if len(f.params) > 4 else []), {})
+            results[case] = got
+        except LayoutUnknown as e:
+            results[case] = "<raise>" if "raise reached" in str(e) else "<unknown: %s>" % e
+    for case, r in results.items():
+        if isinstance(r, str) and r.startswith("<unknown"):
+            raise AnalysisError("for_all_primitives could not be simulated (%s): %s" % (case, r))
+    r = results["single"]
+    ok = isinstance(r, list) and len(r) == 1 and isinstance(r[0][0], Obj) and r[0][0].name == "expr" and freeze(r[0][1]) == freeze(Sym("value"))
+    ctx.check(ok, "for_all_primitives hands a single symbol its value unchanged", detail="single-symbol shortcut", expected="callback(expr, rhs)", found=str(r)[:100], fi=f)
+    r = results["concat"]
+    ok = isinstance(r, list) and len(r) == len(prims)
+    ctx.check(ok, "for_all_primitives calls back once per primitive", detail="per-primitive callback", expected="%d callbacks" % len(prims), found=str(len(r)) if isinstance(r, list) else r, fi=f)
     if ok:
-        st = upd[0].stmt
-        if isinstance(st, ast.AugAssign):
-            ok = isinstance(st.op, ast.Add) and Norm(None).poly(st.value) == expected("%s.nnz()" % pv)
-        else:
-            ok = Norm(None).poly(st.value) == Poly.atom(off) + expected("%s.nnz()" % pv)
-        ok = ok and not [g for g in sc.guards(st) if g not in sc.guards(c)]
-    ctx.check(ok, "the offset starts at 0 and advances by the size of each primitive after it was served", detail="entries of a multi-entry symbol handed to its successor (values shifted)",
-              expected="offset = 0; per primitive: callback(...); offset += p.nnz()", found="; ".join(ast.unparse(d.stmt) for d in inits + upd + loopdef), fi=f, sample={"offset": [ast.unparse(d.stmt) for d in inits + upd]})
+        ctx.check([x[0] for x in r] == prims, "for_all_primitives walks the primitives of the expression in order", detail="iteration", expected="prim0, prim1, prim2", found=str([getattr(x[0], "name", x[0]) for x in r]), fi=f)
+        off = 0
+        widths, starts, shaped = [], [], []
+        for (p_, v), n_ in zip(r, sizes):
+            sl = v[2] if isinstance(v, tuple) and len(v) == 3 and v[0] == "typed" else None
+            widths.append(len(sl) if isinstance(sl, list) else None)
+            starts.append(sl[0] if isinstance(sl, list) and sl else None)
+            shaped.append(isinstance(v, tuple) and len(v) == 3 and freeze(v[1]) == freeze(Sym("sparsity", p_.name)))
+        ctx.check(all(isinstance(w, int) for w in widths), "primitive p receives a slice [offset : offset + size)", detail="slice form", expected="rhs[offset:offset+p.nnz()]", found=str(r)[:120], fi=f)
+        ctx.check(widths == sizes, "the slice of primitive p has p.nnz() entries", detail="slice width", expected=sizes, found=widths, fi=f, sample={"width": str(widths)})
+        ctx.check(all(shaped), "the slice is reshaped to p's own sparsity", detail="element layout of matrix-valued symbols", expected="rhs_type(p.sparsity(), slice)", found=str(shaped), fi=f)
+        want_starts = ["r0", "r2", "r3"]
+        ctx.check(starts == want_starts, "the offset starts at 0 and advances by the size of each primitive after it was served", detail="entries of a multi-entry symbol handed to its successor (values shifted)",
+                  expected=want_starts, found=starts, fi=f, sample={"offset": str(starts)})
+    ctx.check(results["invalid"] == "<raise>", "for_all_primitives: an expression that is not a concatenation of symbols is rejected", detail="set_value/set_initial/set_der on an arbitrary expression", expected="raise",
+              found=str(results["invalid"])[:80], fi=f)
 
 
 @rule("R09.12", min_instances=1, desc="the starting point follows a parameter change: guesses are stored in Opti as numbers, so a value written through to a live transcription must be followed by a re-application of the guess table")
